@@ -35,6 +35,8 @@ type Tx struct {
 	Coinbase  int64     `json:"coinbase"`
 	BlockGas  uint64    `json:"blockGas"`
 	SkipNonce bool      `json:"skipNonce"`
+
+	FromReal *common.Address `json:"-"` // sender address when it is not a small integer (From holds its token)
 }
 
 type Acct struct {
@@ -54,7 +56,7 @@ func AcctsOf(w *World) []Acct {
 				st = append(st, []int64{int64(k), int64(a.Storage[k])})
 			}
 		}
-		out = append(out, Acct{int64(a.Addr), a.Balance, a.Nonce, Bytes(a.Code), st})
+		out = append(out, Acct{a.ID(), a.Balance, a.Nonce, Bytes(a.Code), st})
 	}
 	return out
 }
@@ -71,6 +73,14 @@ type Result struct {
 // execute runs one transaction on a fresh state; traced selects full event recording.
 func Execute(w *World, tx *Tx, data []byte, traced bool) *Result {
 	return ExecuteWith(w, tx, data, &ExecOpts{Traced: traced})
+}
+
+// Sender returns the 20-byte sender address.
+func (tx *Tx) Sender() common.Address {
+	if tx.FromReal != nil {
+		return *tx.FromReal
+	}
+	return Addr(uint64(tx.From))
 }
 
 // ExecOpts selects the resources an execution shares with others (C28).
@@ -101,6 +111,9 @@ func ExecuteWith(w *World, tx *Tx, data []byte, o *ExecOpts) *Result {
 	st := w.NewState(rules)
 	tr := NewTracer()
 	tr.Light = !traced
+	if tx.FromReal != nil {
+		tr.In.Addr(*tx.FromReal) // the sender is always token -2
+	}
 	bctx := core.NewEVMBlockContext(header, NewChain(cfg), nil)
 	hooks := tr.Hooks()
 	if o.Gate != nil {
@@ -128,7 +141,7 @@ func ExecuteWith(w *World, tx *Tx, data []byte, o *ExecOpts) *Result {
 		evm.SetPrecompileCache(o.PreCache)
 	}
 	msg := &core.Message{
-		From:            Addr(uint64(tx.From)),
+		From:            tx.Sender(),
 		Nonce:           tx.Nonce,
 		Value:           uint256.NewInt(tx.Value),
 		GasLimit:        tx.Gas,
@@ -180,7 +193,7 @@ func Post(r *Result, w *World, tx *Tx) ([]map[string]any, bool) {
 	in := r.Tr.In
 	addrs := map[int64]common.Address{}
 	for _, a := range w.Accounts {
-		addrs[int64(a.Addr)] = Addr(a.Addr)
+		addrs[a.ID()] = a.Address()
 	}
 	addrs[tx.Coinbase] = Addr(uint64(tx.Coinbase))
 	if !tx.IsCreate {
@@ -282,9 +295,15 @@ func GenScenario(r *rand.Rand) *Scenario {
 		}
 		return m
 	}
-	w.Add(&Account{Addr: AddrC1, Balance: uint64(r.Intn(3000)), Nonce: 1, Code: code(top), Storage: mkStore()})
-	w.Add(&Account{Addr: AddrC2, Balance: uint64(r.Intn(3000)), Nonce: 1, Code: code(mid), Storage: mkStore()})
-	w.Add(&Account{Addr: AddrC3, Balance: uint64(r.Intn(3000)), Nonce: 1, Code: code(leaf), Storage: mkStore()})
+	bal := func() uint64 {
+		if r.Intn(3) == 0 {
+			return 0 // zero balances matter: SELFDESTRUCT / CALL new-account charges depend on them
+		}
+		return uint64(r.Intn(3000))
+	}
+	w.Add(&Account{Addr: AddrC1, Balance: bal(), Nonce: 1, Code: code(top), Storage: mkStore()})
+	w.Add(&Account{Addr: AddrC2, Balance: bal(), Nonce: 1, Code: code(mid), Storage: mkStore()})
+	w.Add(&Account{Addr: AddrC3, Balance: bal(), Nonce: 1, Code: code(leaf), Storage: mkStore()})
 	w.Add(&Account{Addr: AddrEOA2, Balance: uint64(r.Intn(10)), Nonce: uint64(r.Intn(2))})
 	if r.Intn(3) == 0 {
 		w.Add(&Account{Addr: AddrCoinbase, Balance: uint64(r.Intn(10))})
